@@ -38,7 +38,8 @@ class Desc:
                     return u + self._proj(pr[ln:])
         if nm and self.expand and not (1 <= base <= fn.argc) and depth < MAXD:
             d0 = fn.single_def(base)
-            if d0 is not None and (d0[1] == "call" or (d0[1] == "assign" and d0[2]["rv"]["r"] in ("use", "cast", "bin", "len", "ref"))):
+            kinds = ("bin", "len") if self.expand == "computed" else ("use", "cast", "bin", "len", "ref")
+            if d0 is not None and (d0[1] == "call" or (d0[1] == "assign" and d0[2]["rv"]["r"] in kinds)):
                 nm = None
         if nm:
             return nm + self._proj(proj)
@@ -163,6 +164,9 @@ class Facts6:
         self.fn = fn
         self.d = Desc(fn)
         self.dx = Desc(fn, expand=True)
+        # third vocabulary: only locals that hold a *computed* value (`let copy_size = pending[offset..size].len()`) are replaced by
+        # their definition; pattern bindings keep their names
+        self.dc = Desc(fn, expand="computed")
         self._cmps = None
         self._dis = None
         self._loops = None
@@ -177,8 +181,8 @@ class Facts6:
                 if rv["r"] == "bin" and rv["op"] in OPS and len(s["lhs"]) == 1:
                     tests = fn.bool_tests(s["lhs"][0])
                     if tests:
-                        for da in (self.d, self.dx):
-                            for db in (self.d, self.dx):
+                        for da in (self.d, self.dx, self.dc):
+                            for db in (self.d, self.dx, self.dc):
                                 e = (tests, da.op(rv["a"]), OPS[rv["op"]], db.op(rv["b"]))
                                 if e not in out:
                                     out.append(e)
@@ -187,8 +191,8 @@ class Facts6:
                 if m in CALL_OPS and len(c.args) == 2 and len(c.dest) == 1:
                     tests = fn.bool_tests(c.dest[0])
                     if tests:
-                        for da in (self.d, self.dx):
-                            for db in (self.d, self.dx):
+                        for da in (self.d, self.dx, self.dc):
+                            for db in (self.d, self.dx, self.dc):
                                 e = (tests, da.op(c.args[0]).lstrip("&"), CALL_OPS[m], db.op(c.args[1]).lstrip("&"))
                                 if e not in out:
                                     out.append(e)
